@@ -32,7 +32,15 @@ func SaveTxState(ctx context.Context, store storage.Storage, tx *client.Tx) erro
 
 // FetchTxState fetches a tx state from storage.
 func FetchTxState(ctx context.Context, store storage.Storage,
-	txid bitcoin.Hash32) (*client.Tx, error) {
+	txid bitcoin.Hash32) (tx *client.Tx, err error) {
+
+	// A damaged record must come back as an error, also when the decoder of an embedded structure
+	// panics on it.
+	defer func() {
+		if p := recover(); p != nil {
+			tx, err = nil, fmt.Errorf("malformed tx state : %v", p)
+		}
+	}()
 
 	path := fmt.Sprintf("%s/%s", txStatePath, txid)
 	b, err := store.Read(ctx, path)
